@@ -144,6 +144,10 @@ def directed_pool():
     P.append('((((a{128}){128}){128}){128}){128}')
     P.append('(((a{128}){128}){128}){16}')
     P.append('(((a{0,128}){0,128}){0,128}){0,128}')
+    BIG = '((a{128}){128}){16}'
+    P.append('(' + BIG * 8 + '){128}')        # children that each reach the cap, added up, then multiplied again
+    P.append('(' + BIG * 16 + '){128}')
+    P.append('((' + BIG * 4 + '){2}' + BIG * 4 + '){100}')
     P.append('(((a{128}){128}){128})' * 2100)      # each factor saturates the estimate; their sum must not overflow either
     return [p.encode('latin-1') for p in P]
 
